@@ -22,27 +22,42 @@ Theorem C20_caught : forall e hs,
   caught e hs = true <-> exists h c, In h hs /\ In c h /\ subclass e c = true.
 Proof. exact caught_spec. Qed.
 
-(* Schema validation and deserialisation check of JSON, XML and AASX files: no exception class that any
-   stage can raise leaves the function (finite check over all sites of the translated functions, callees
-   included, fuel 4 not exhausted). *)
-Theorem C20_total_schema_deser : forall f, In f closed_functions -> escapes functions fuel f = EscOk [].
-Proof. exact total_schema_deser. Qed.
+(* Totality: no exception class that any stage of any public check function can raise leaves the function
+   (finite check over all sites of the twelve translated functions, callees included; fuel 4 not exhausted):
+   every check ends with a report. *)
+Theorem C20_total : forall f, In f public_functions -> escapes functions fuel f = EscOk [].
+Proof. exact total. Qed.
 
-(* Every public check function: the classes that can leave it are within [allowed_for] - nothing for the
-   six functions above, and only NotImplementedError (AASDataChecker on a SubmodelElementList with
-   order_relevant=False; known finding) for the six functions that compare data. *)
-Theorem C20_total_partial : forall f, In f public_functions ->
-  exists l, escapes functions fuel f = EscOk l /\ incl l (allowed_for f).
-Proof. exact total_partial. Qed.
+(* In particular the comparing step always gets a status: whatever AASDataChecker answers - equal, different,
+   or its refusal (NotImplementedError) to compare unordered SubmodelElementLists - the handlers around the
+   call set one. *)
+Theorem C20_compare_step_total : forall f r, In f comparing_functions ->
+  exists hs st, compare_handlers functions f = Some hs /\ compare_step (caught ENotImplemented hs) r = Some st.
+Proof. exact compare_step_total. Qed.
 
-(* The full statement (nothing escapes from any public function) is refuted by the model. *)
-Theorem C20_total_refuted :
-  exists f, In f public_functions /\ escapes functions fuel f <> EscOk [].
-Proof. exact total_refuted. Qed.
-
-(* Comparing equal data succeeds, whatever attribute list is compared. *)
+(* Comparing equal data succeeds, whatever attribute list is compared ... *)
 Theorem C20_equiv_sound : forall attrs (a b : record), (forall x, a x = b x) -> compare_by attrs a b = true.
 Proof. exact compare_by_refl. Qed.
+
+(* ... so equal objects compare as equal, except two SubmodelElementLists of which one is unordered
+   ([unordered_raises] is regenerated from _helper.py) ... *)
+Theorem C20_equiv_sound_partial : forall m oa ob attrs (a b : record),
+  (forall x, a x = b x) -> (mem_str m unordered_raises = false \/ (oa = true /\ ob = true)) ->
+  compare_obj unordered_raises m oa ob attrs a b = CmpEqual.
+Proof. exact equiv_sound_partial. Qed.
+
+(* ... and that exception is real: two equal unordered SubmodelElementLists are refused by the checker, and
+   each of the six comparing functions turns the refusal into a FAILED step (open known finding
+   C20:equivalence:equal-data-rejected:unordered-list; for check_aas_example FAILED is the right verdict,
+   the example data holds no unordered list). *)
+Theorem C20_equiv_sound_refuted :
+  exists cls m attrs (a b : record),
+    In (cls, m, attrs) class_table /\ (forall x, a x = b x) /\
+    compare_obj unordered_raises m false false (compared checker_methods 6 m) a b = CmpNotImplemented /\
+    (forall f, In f comparing_functions ->
+       exists hs, compare_handlers functions f = Some hs /\
+                  compare_step (caught ENotImplemented hs) CmpNotImplemented = Some FAILED).
+Proof. exact unordered_equal_fails. Qed.
 
 (* No attribute of a metamodel class (constructor parameter) is left uncompared by AASDataChecker. *)
 Theorem C20_missing_attributes : flat_map (missing checker_methods) class_table = [].
